@@ -242,6 +242,10 @@ func AssembleFile(ctx context.Context, name string, idx Index, s Store, seeds []
 	for {
 		validatingPrefix := fmt.Sprintf("Attempt %d: Validating ", attempt)
 		if err := plan.Validate(ctx, options.N, NewProgressBar(validatingPrefix)); err != nil {
+			// Validation was cancelled, no seed is to blame
+			if _, ok := err.(Interrupted); ok {
+				return stats, err
+			}
 			// This plan has at least one invalid seed
 			switch options.InvalidSeedAction {
 			case InvalidSeedActionBailOut:
@@ -272,15 +276,22 @@ func AssembleFile(ctx context.Context, name string, idx Index, s Store, seeds []
 	pb.Start()
 	defer pb.Finish()
 
+	var interrupted bool
 loop:
 	for _, segment := range plan {
 		select {
 		case <-ctx.Done():
+			interrupted = true
 			break loop
 		case in <- Job{segment.indexSegment, segment.source}:
 		}
 	}
 	close(in)
 
-	return stats, g.Wait()
+	// If the feeder was stopped early without a worker reporting an error, the
+	// context was cancelled and the file is incomplete
+	if err := g.Wait(); err != nil || !interrupted {
+		return stats, err
+	}
+	return stats, Interrupted{}
 }
